@@ -156,6 +156,8 @@ let op_of_sx = function
   | L [A "addtext"; p; a; e; cd] -> OAddText (nat_of_sx p, bool_of_sx a, bool_of_sx e, bool_of_sx cd)
   | _ -> failwith "op"
 
+let outcome_name = function Grammar.Accepted -> "Accepted" | Grammar.IllegalChildErr -> "IllegalChild" | Grammar.IllegalTextErr -> "IllegalText" | Grammar.AttributeErr -> "AttributeError" | Grammar.ValueErr -> "ValueError"
+
 let dispatch (f : string) (args : sx list) : sx =
   match f, args with
   | "tt_encode", [s] -> L (SL.map sx_of_tnode (Teletype.encode (str_of_sx s)))
@@ -286,6 +288,16 @@ let dispatch (f : string) (args : sx list) : sx =
         L [sx_of_opt sx_of_str e.LoadStyles.le_def; L (SL.map (fun (i, ns) -> L [sx_of_nat i; L (SL.map sx_of_str ns)]) e.LoadStyles.le_refs)] in
       L (SL.map sx_of_elem (LoadStyles.load_all (SL.map elem_of_sx es)))
   | "ls_newname", [L names; n] -> sx_of_str (LoadStyles.new_name (SL.map str_of_sx names) (str_of_sx n))
+  | "gr_selems", [] -> L (SL.map sx_of_n GrammarInst.selems)
+  | "gr_children", [p; chk] ->
+      let p = n_of_sx p and chk = (int_of_sx chk <> 0) in
+      L (SL.map (fun c -> A (outcome_name (GrammarInst.i_add_element p c chk))) GrammarInst.selems)
+  | "gr_text", [chk] -> let chk = (int_of_sx chk <> 0) in L (SL.map (fun p -> A (outcome_name (GrammarInst.i_add_text p chk))) GrammarInst.selems)
+  | "gr_attr", [el; L kws; chk] ->
+      let el = n_of_sx el and chk = (int_of_sx chk <> 0) in
+      L (SL.map (fun kw -> A (outcome_name (GrammarInst.i_set_attribute el (str_of_sx kw) chk))) kws)
+  | "gr_construct", [el; L given; chk] ->
+      A (outcome_name (GrammarInst.i_construct (n_of_sx el) (SL.map n_of_sx given) (int_of_sx chk <> 0)))
   | _ -> failwith ("unknown function " ^ f)
 
 let () =
